@@ -35,11 +35,25 @@ var loadPatterns = []string{".", "./language/...", "./gqlerrors"}
 func cmdList(args []string) int {
 	fs := flag.NewFlagSet("list", flag.ExitOnError)
 	repo := fs.String("repo", "/repo", "repository")
+	fnames := fs.String("fns", "", "list repository functions whose key contains this")
 	fs.Parse(args)
 	eng, err := LoadEngine(*repo, loadPatterns)
 	if err != nil {
 		fmt.Fprintln(os.Stderr, "load:", err)
 		return 2
+	}
+	if *fnames != "" {
+		var ks []string
+		for k := range eng.fnByKey {
+			if strings.Contains(k, *fnames) && strings.HasPrefix(k, repoModule) {
+				ks = append(ks, k)
+			}
+		}
+		sort.Strings(ks)
+		for _, k := range ks {
+			fmt.Println(k, eng.prog.Fset.Position(eng.fnByKey[k].Pos()))
+		}
+		return 0
 	}
 	var keys []string
 	for k := range eng.contracts.Funcs {
@@ -143,6 +157,7 @@ func hasProp(fc *FuncContract, p string) bool {
 	for _, cs := range fc.CallSites {
 		all = append(all, cs.Clause)
 	}
+	all = append(all, fc.AtReturn...)
 	for _, c := range all {
 		for _, q := range c.Props {
 			if q == p {
